@@ -1,6 +1,6 @@
 SPECIFICATION Spec
 CONSTANTS
-  MaxTotal = 3
+  MaxTotal = 2
   MaxPerKind = 3
-INVARIANTS SetRules StreamOrder Counts Closed
+INVARIANTS SetRules StreamOrder Counts Closed EmitAgrees
 CHECK_DEADLOCK FALSE
